@@ -22,6 +22,12 @@ func init() {
 				Run: ruleStickyEnd},
 			{ID: "C07.commit-after-success", Floor: 12, Clause: "stream combinators change their own state only after the pull/callback they depend on has succeeded (or when nothing fallible follows): the stream version then yields what the iterator version yields even when a Next fails and is retried",
 				Run: func(c *Ctx, r *R) { ruleCommitAfterSuccess(c, r, "C07") }},
+			{ID: "C07.no-discarded-pull", Floor: 20, Clause: "in every Next/Peek of iterator and stream wrappers an item obtained from the source is used on every path on which it was obtained (never pulled and dropped, e.g. on a context check made after the pull)",
+				Run: func(c *Ctx, r *R) { ruleNoDiscardedPull(c, r, "iterator", "stream") }},
+			{ID: "C07.end-provenance", Floor: 8, Clause: "Flatten and Join report the end only when the outer source ends: no return forwards the end of the current inner sequence, and Next loops past empty inner sequences",
+				Run: ruleEndProvenance},
+			{ID: "C07.runs-inner-sticky", Floor: 2, Clause: "every end return of iterator.Runs' inner iterator leaves it detached from the shared source",
+				Run: ruleRunsInnerSticky},
 			{ID: "C07.nonzero-divisor", Floor: 11, Clause: "every integer / or % whose divisor is not a non-zero constant is dominated by a guard excluding zero on the same value, or is a listed exception with its reason (repo-wide)",
 				Run: ruleNonzeroDivisor},
 		},
